@@ -68,10 +68,10 @@ def run(rep, prog, tier):
     # lemma
     from . import c05
     kfn = prog.fn("contact_model_abstract::compute_node_triangle_distance")
-    for i, r in enumerate(n for n in walk(kfn["body"]) if n.get("k") == "ReturnStmt" and isinstance(n.get("value"), dict)):
+    for i, (r, rvalue) in enumerate(c05.result_sites(kfn)):
         ev = S.SymEval(prog, kfn, lazy_scalars=True)
         try:
-            v = ev.ev(r["value"])
+            v = ev.ev(rvalue)
             b = ev.record_of(v.items[1])
             ok = ev.prove_zero(sum(b.f.values()) - 1)
         except S.Decline as e:
@@ -121,16 +121,17 @@ def run(rep, prog, tier):
                 rep.violation("C07.torque", prog, fn, blk, "net contact torque != 0 (block of %d add_force)" % len(calls),
                               "the forces of the block at line %s are not distributed with the weights that define the contact point: sum(pos_k x F_k) != 0 (%s)" % (blk.get("l"), getattr(ev, "last_witness", "")))
             # range: an adhesive block needs the adhesion cut-off, a repulsive one the repulsion (or max) cut-off
-            kind = block_kind(fi, blk)
-            range_rule(rep, prog, fn, fi, blk, store, "%sforce block at line %s" % (kind + " " if kind else "", blk.get("l")),
+            site = calls[0]      # the first force of the block: its guards include the early exits in front of it inside the block's own compound
+            kind = block_kind(fi, site)
+            range_rule(rep, prog, fn, fi, site, store, "%sforce block at line %s" % (kind + " " if kind else "", blk.get("l")),
                        want={"adhesive": "adhesion", "repulsive": None}.get(kind), exclude={"repulsive": "adhesion"}.get(kind))
             # restoring sign in the repulsive block
-            flag = repulsive_guard(fi, blk)
+            flag = repulsive_guard(fi, site)
             if flag is not None:
                 node_i = [i for i, r in enumerate(recv) if "node_lst_" not in r]
                 if len(node_i) == 1:
                     sign_rule(rep, prog, fn, blk, ev, forces, poss, node_i[0])
-                decision = decision or decision_table(prog, fn, flag)
+                decision = decision or truth_table(prog, fn, fi, site) or decision_table(prog, fn, flag)
         except S.Decline as e:
             raise AnalysisBroken("%s: force block at line %s cannot be normalised: %s" % (prog.loc(fn, blk), blk.get("l"), e))
     # couplings
@@ -166,7 +167,12 @@ def run(rep, prog, tier):
         raise AnalysisBroken("no caller of %s" % ENTRY[cm])
     if decision is None:
         raise AnalysisBroken("%s: repulsive/adhesive decision not recognised" % fn["qn"])
-    rep.ok("C07.decision-table", prog, fn, None, "decision: %s" % decision, table=decision)
+    if decision == REF_TABLE:
+        rep.ok("C07.decision-table", prog, fn, None, "decision: %s" % decision, table=decision)
+    else:
+        rep.violation("C07.decision-table", prog, fn, None, "repulsive/adhesive decision differs from the documented rule",
+                      "%s decides repulsive/adhesive with %s; the documented rule is %s: a node is pushed back when it lies behind the face (inside an ordinary cell), and the test is inverted for a cell of type 0 "
+                      "inside an enclosing matrix of type 1 and for a nucleus (type 3) inside a cell of type 0 - with another table a node on the forbidden side is attracted further instead of pushed back" % (fn["qn"], decision, REF_TABLE), table=decision)
 
 
 def ctor_store(rep, prog, cm):
@@ -295,6 +301,130 @@ def sign_rule(rep, prog, fn, blk, ev, forces, poss, ni):
         rep.violation("C07.restoring-sign", prog, fn, blk, "node force coefficient %s" % ("negative" if coeff <= 0 else "not a product of non-negative atoms"),
                       "in the repulsive block at line %s the node's force is -(%s)*(x_node - x_cpa); the coefficient must be a positive constant times non-negative atoms (strength, area) so that a node on the forbidden side is pushed back toward the surface and the surface toward the node; offending factors: %s"
                       % (blk.get("l"), re.sub(r"#\d+", "", str(s))[:100], ", ".join(bad) or "constant %s" % coeff))
+
+
+REF_TABLE = {"repulsive_iff_dot_normal_negative": True, "inversion_pairs(node_cell_type,face_cell_type)": [(0, 1), (3, 0)]}
+
+
+def truth_table(prog, fn, fi, blk):
+    """The repulsive force block as a Boolean function of S = 'dot(face-to-node vector, face normal) < 0' and of the two cell
+    types, obtained by interpreting the Boolean dataflow that leads to the block (declarations, '!=' / '==' / '&&' / '||' / '!',
+    conditional flips) for S in {true,false} and every pair of cell types 0..4. Returns the table in the format of
+    decision_table, or None when the block's guards do not depend on S at all."""
+    cellp = [p_ for p_ in fn["params"] if "shared_ptr<cell>" in p_["t"] or p_["t"].startswith("cell_ptr")]
+    c1_did = cellp[0]["did"] if cellp else None
+
+    def is_dot_normal(e):
+        e = strip(e)
+        if e.get("k") == "CXXMemberCallExpr" and e.get("callee") == "vec3::dot":
+            return "normal" in render(e)
+        return False
+
+    def ev(e, env, S_, t1, t2):
+        e = strip(e)
+        k = e.get("k")
+        if k == "ParenExpr" or (k in ("ImplicitCastExpr", "CXXStaticCastExpr", "ExprWithCleanups") and e.get("c")):
+            return ev(e["c"][0], env, S_, t1, t2)
+        if k == "CXXBoolLiteralExpr":
+            return bool(e.get("v"))
+        if k == "IntegerLiteral":
+            return int(e.get("v"))
+        if k == "DeclRefExpr":
+            return env.get(e["ref"].get("did"))
+        if k == "UnaryOperator" and e.get("op") == "!":
+            v = ev(e["c"][0], env, S_, t1, t2)
+            return None if v is None else (not v)
+        if k == "CXXMemberCallExpr" and e.get("callee") == "cell::get_cell_type_id":
+            o = strip(call_obj(e))
+            while o.get("k") in ("CXXOperatorCallExpr",) and o.get("op") in ("->", "*"):
+                o = strip(o["c"][1])
+            if o.get("k") == "DeclRefExpr":
+                return t1 if o["ref"].get("did") == c1_did else t2
+            return None
+        if k == "ConditionalOperator":
+            c = ev(e["c"][0], env, S_, t1, t2)
+            if c is None:
+                return None
+            return ev(e["c"][1] if c else e["c"][2], env, S_, t1, t2)
+        if k == "BinaryOperator":
+            op = e.get("op")
+            if op in ("<", "<=", ">", ">="):
+                l, r = strip(e["c"][0]), strip(e["c"][1])
+                if is_dot_normal(l) and r.get("k") in ("FloatingLiteral", "IntegerLiteral") and float(r["v"]) == 0.0:
+                    return S_ if op in ("<", "<=") else (not S_)
+                if is_dot_normal(r) and l.get("k") in ("FloatingLiteral", "IntegerLiteral") and float(l["v"]) == 0.0:
+                    return (not S_) if op in ("<", "<=") else S_
+                return None
+            a, b = ev(e["c"][0], env, S_, t1, t2), ev(e["c"][1], env, S_, t1, t2)
+            if op == "&&":
+                if a is False or b is False:
+                    return False
+                return None if a is None or b is None else True
+            if op == "||":
+                if a is True or b is True:
+                    return True
+                return None if a is None or b is None else False
+            if op in ("==", "!="):
+                if a is None or b is None:
+                    return None
+                return (a == b) if op == "==" else (a != b)
+        return None
+
+    def run_stmt(st, env, S_, t1, t2):
+        k = st.get("k")
+        if k == "DeclStmt":
+            for d in st.get("decls", []):
+                if d.get("k") == "Var" and isinstance(d.get("init"), dict) and re.search(r"\b(bool|int|short|unsigned|long)\b", d.get("t", "")):
+                    env[d["did"]] = ev(d["init"], env, S_, t1, t2)
+        elif k == "BinaryOperator" and st.get("op") == "=":
+            l = strip(st["c"][0])
+            if l.get("k") == "DeclRefExpr":
+                env[l["ref"]["did"]] = ev(st["c"][1], env, S_, t1, t2)
+        elif k == "IfStmt" and st.get("else") is None:
+            assigns = [x for x in walk(st["then"]) if x.get("k") == "BinaryOperator" and x.get("op") == "=" and strip(x["c"][0]).get("k") == "DeclRefExpr"]
+            if assigns and not any(x.get("k") in ("ForStmt", "WhileStmt", "CXXForRangeStmt") for x in walk(st["then"])):
+                c = ev(st["cond"], env, S_, t1, t2)
+                if c is True:
+                    for x in assigns:
+                        env[strip(x["c"][0])["ref"]["did"]] = ev(x["c"][1], env, S_, t1, t2)
+                elif c is None:
+                    for x in assigns:
+                        env[strip(x["c"][0])["ref"]["did"]] = None
+
+    # statements that execute before the block: for every enclosing compound statement, the children in front of the one that leads to it
+    chain = []
+    child = blk
+    for p_, slot, ch in fi.ancestors(blk):
+        if p_.get("k") == "CompoundStmt":
+            idx = [i for i, c in enumerate(p_.get("c", [])) if c is child or any(x is child for x in walk(c))]
+            if idx:
+                chain.append(p_["c"][:idx[0]])
+        child = p_
+    chain.reverse()
+    guards = list(fi.guards(blk))
+
+    def reachable(S_, t1, t2):
+        env = {}
+        for stmts in chain:
+            for st in stmts:
+                run_stmt(strip(st) if st.get("k") not in ("DeclStmt", "IfStmt") else st, env, S_, t1, t2)
+        for cond, pol in guards:
+            v = ev(cond, env, S_, t1, t2)
+            if v is not None and v != pol:
+                return False
+        return True
+
+    types = range(5)
+    table = {(S_, a, b): reachable(S_, a, b) for S_ in (True, False) for a in types for b in types}
+    if all(table[(True, a, b)] == table[(False, a, b)] for a in types for b in types):
+        return None
+    plain = [(a, b) for a in types for b in types if table[(True, a, b)] and not table[(False, a, b)]]
+    inverted = [(a, b) for a in types for b in types if table[(False, a, b)] and not table[(True, a, b)]]
+    other = [(a, b) for a in types for b in types if (a, b) not in plain and (a, b) not in inverted]
+    res = {"repulsive_iff_dot_normal_negative": len(plain) > len(inverted), "inversion_pairs(node_cell_type,face_cell_type)": sorted(inverted)}
+    if other:
+        res["always_or_never_repulsive"] = sorted(other)
+    return res
 
 
 def decision_table(prog, fn, flag):
